@@ -489,6 +489,8 @@ type smallCase struct {
 	Kind      string            `json:"kind"` // "small" | "large" | "cancel"
 	Df        int               `json:"df"`
 	Thr       int               `json:"thr"`
+	RDf       int               `json:"remote_df,omitempty"`  // tuning of the remote index when it differs from the local one
+	RThr      int               `json:"remote_thr,omitempty"`
 	Left      map[string]string `json:"left,omitempty"`
 	Right     map[string]string `json:"right,omitempty"`
 	LeftMode  string            `json:"left_mode,omitempty"`
@@ -646,6 +648,82 @@ func (r *runner) violation(key string, p param, rank [6]int, what string, cs *sm
 		v.rank, v.what, v.cs = rank, what, cs
 	}
 	v.n++
+}
+
+// asymmetric: the two sides are tuned differently ("any two head indexes and any tuning parameters"): fresh indexes,
+// in process, both variants; quick = the pair subset of stride 9, thorough = all pairs.
+func (r *runner) asymmetric() {
+	c := r.c
+	pairs := [][2]param{
+		{{2, 1}, {2, 4}}, {{2, 4}, {2, 1}}, {{2, 1}, {16, 4}}, {{16, 4}, {2, 1}}, {{3, 2}, {2, 1}}, {{2, 1}, {3, 2}}, {{16, 4}, {3, 2}}, {{2, 2}, {2, 1}}, {{2, 1}, {2, 2}},
+	}
+	stride := vk.Pick(c, 9, 0)
+	c.Bound("asymmetric_parameter_pairs", len(pairs))
+	built := map[param][]ldiff.Diff{}
+	index := func(p param) []ldiff.Diff {
+		if built[p] == nil {
+			l := make([]ldiff.Diff, nCodes)
+			for code := 0; code < nCodes; code++ {
+				l[code] = buildIndex(p, contentsOfCode(code), modeFresh, nil)
+			}
+			built[p] = l
+		}
+		return built[p]
+	}
+	for pi, pr := range pairs {
+		lp, rp := pr[0], pr[1]
+		li, ri := index(lp), index(rp)
+		var wg sync.WaitGroup
+		var next atomic.Int64
+		var evals atomic.Int64
+		for w := 0; w < 16; w++ {
+			wg.Add(1)
+			go func() {
+				defer wg.Done()
+				lk := newLink()
+				for {
+					l := int(next.Add(1) - 1)
+					if l >= nCodes || c.TimeUp() {
+						return
+					}
+					for rr := 0; rr < nCodes; rr++ {
+						if !inSubset(l, rr, stride) {
+							continue
+						}
+						for _, variant := range []string{"Diff", "CompareDiff"} {
+							var kind, desc string
+							lc, rc := contentsOfCode(l), contentsOfCode(rr)
+							panicked, what := vk.Recover(func() {
+								// generous round bound: the deeper of the two tunings
+								bp := lp
+								if roundsBound(rp) > roundsBound(bp) {
+									bp = rp
+								}
+								kind, desc, _, _, _ = checkGeneric(lk, bp, trInproc, li[l], ri[rr], lc, rc, variant)
+							})
+							evals.Add(1)
+							if panicked {
+								kind, desc = "panic", what
+							}
+							if kind != "" {
+								cs := &smallCase{Kind: "small", Df: lp.Df, Thr: lp.Thr, RDf: rp.Df, RThr: rp.Thr, Left: lc, Right: rc, LeftMode: "fresh", RightMode: "fresh", Transport: "inproc", Variant: variant}
+								r.violation(variant+" inproc asymmetric-tuning "+kind, lp, [6]int{len(lc) + len(rc), 100 + pi, 0, 0, l, rr},
+									fmt.Sprintf("local df=%d thr=%d, remote df=%d thr=%d: local=%v remote=%v: %s", lp.Df, lp.Thr, rp.Df, rp.Thr, lc, rc, desc), cs)
+							}
+						}
+					}
+				}
+			}()
+		}
+		wg.Wait()
+		c.Count("evaluations", evals.Load())
+		c.Count("executions", evals.Load())
+		c.Count("asymmetric_evaluations", evals.Load())
+		if c.TimeUp() {
+			c.NotExhaustive("deadline reached in the asymmetric-tuning sub-check")
+			return
+		}
+	}
 }
 
 func (r *runner) flushViolations() {
@@ -838,6 +916,9 @@ func body(c *vk.Ctx) {
 		c.NotExhaustive("deadline reached before all parameter pairs were enumerated")
 	}
 
+	if !stopped {
+		r.asymmetric()
+	}
 	r.flushViolations()
 	c.Bound("rounds_max", r.maxByDf)
 	if r.st.maxCase != nil {
@@ -1474,8 +1555,12 @@ func replay(c *vk.Ctx) {
 		if _, ok := codeOfContents(cs.Left); !ok {
 			c.Note("replay: left contents are outside the 6-id universe (still replayed)")
 		}
+		rp := p
+		if cs.RDf != 0 || cs.RThr != 0 {
+			rp = param{cs.RDf, cs.RThr}
+		}
 		left := buildIndex(p, cs.Left, modeIdx(cs.LeftMode), smallExtras(cs.Left))
-		right := buildIndex(p, cs.Right, modeIdx(cs.RightMode), smallExtras(cs.Right))
+		right := buildIndex(rp, cs.Right, modeIdx(cs.RightMode), smallExtras(cs.Right))
 		lk.cr.trace = left
 		var kind, desc string
 		panicked, what := vk.Recover(func() {
